@@ -63,6 +63,18 @@ Proof.
   destruct F as [Hp _]. pose proof (prime_ge_2 _ Hp).
   exists (- (veval p ins ig s v / p)). rewrite (Z.mod_eq _ p) by lia. ring.
 Qed.
+Lemma veval_lin ins ig s l : veval p ins ig s (VLin l) = eval (wval s) l. Proof. reflexivity. Qed.
+(* coefficients reduced mod p (the model may keep wires reduced: every observation reduces them anyway) *)
+Definition lc_reduce (l : lc) : lc := map (fun vc => (fst vc, snd vc mod p)) l.
+Lemma wf_reduce l : wf l -> wf (lc_reduce l).
+Proof. unfold wf, lc_reduce. rewrite map_map. simpl. auto. Qed.
+(* x.value %= modulus, with the value written as the (reduced) wire itself: for a coherent x this is the same integer *)
+Lemma good_relin l : wf l -> Good (VModP (VLin (lc_reduce l))) (lc_reduce l).
+Proof.
+  intros W. split; [apply wf_reduce; assumption|]. intros F ins ig s. rewrite veval_modp, veval_lin.
+  destruct F as [Hp _]. pose proof (prime_ge_2 _ Hp).
+  exists (- (eval (wval s) (lc_reduce l) / p)). rewrite (Z.mod_eq _ p) by lia. ring.
+Qed.
 (* x / k for a public k invertible mod p: value v // k when k | v, else v * k^-1 mod p; wire scaled by k^-1 *)
 Lemma good_div v l k g : k mod p <> 0 -> Good v l ->
   Good (VIte (BAnd g (BEq (VMod v (VConst k)) (VConst 0))) (VDiv v (VConst k)) (VModP (VMul v (VConst (finv p k)))))
